@@ -87,7 +87,10 @@ def check_one(peaks, impls, storage=False):
         if alt and rf[:, 0].max() != (p.max() - p.min()) / 2:
             return dict(impl=name, peaks=list(peaks), what="largest range not counted", got=float(rf[:, 0].max()))
         # negate / shift / positive scale (integers and powers of two: exact in floating point)
+        dyadic = all(float(x_ * 64).is_integer() for x_ in peaks)          # a shift is exact only for such inputs; negation and powers of two always are
         for a, b in ((-1.0, 0.0), (1.0, 3.0), (2.0, 0.0), (-4.0, 1.0)):
+            if b and not dyadic:
+                continue
             r2, o2 = fn(a * p + b, True)
             r2, o2 = np.asarray(r2), np.asarray(o2)
             if not (np.array_equal(o2, os_) and np.array_equal(r2[:, 0], abs(a) * rf[:, 0]) and np.array_equal(r2[:, 1], a * rf[:, 1] + b)
@@ -153,6 +156,18 @@ def inputs(mode, seed):
             yield tuple(out)
         else:
             yield tuple(rnd.randint(-1000, 1000) / 8 for _ in range(n))
+    # near ties: adjacent ranges that differ by a relative 1e-9 .. 1e-12 (far below single precision, far above double): the comparison X < Y must be made in double
+    for _ in range(nrand // 5):
+        n = rnd.randint(4, 14)
+        v, s, out = 0.0, 1, [0.0]
+        rng_prev = None
+        for _k in range(n):
+            if rng_prev is not None and rnd.random() < 0.6:
+                step = rng_prev * (1 + rnd.choice((-1, 1)) * 10.0 ** (-rnd.randint(9, 12)))
+            else:
+                step = rnd.randint(1, 9) + rnd.random()
+            v = v + s * step; s = -s; out.append(v); rng_prev = step
+        yield tuple(out)
 
 
 def main():
